@@ -276,18 +276,26 @@ def run_model(spec_case, res):
 
 # ------------------------------------------------------------------------------------------------
 
-def oracle_e(res, ss, mdl, models):
-    """Per-variable equation values by name from mdl._input (the values the model holds)."""
+def oracle_e(res, ss, mdl, models, inp_f=None):
+    """Per-variable equation values by name from mdl._input (the values the model holds).
+    ``inp_f``: the inputs as they were when the differential equations were evaluated (anti-windup limiters move a pegged
+    state's value afterwards, before the algebraic equations are evaluated)."""
     from vf.oracle import modelspec as ms
     from vf.oracle.expr import Evaluator, Unsupported
     sp = ms.Spec(mdl)
     inp = dict(mdl.get_inputs())
-    ev = Evaluator(inp, sp.subs, mdl.n)
-    ev2 = Evaluator(jitter(inp, np.random.default_rng(1)), sp.subs, mdl.n)
+    ev_g = Evaluator(inp, sp.subs, mdl.n)
+    ev2_g = Evaluator(jitter(inp, np.random.default_rng(1)), sp.subs, mdl.n)
+    if inp_f is not None:
+        ev_f = Evaluator(inp_f, sp.subs, mdl.n)
+        ev2_f = Evaluator(jitter(inp_f, np.random.default_rng(1)), sp.subs, mdl.n)
+    else:
+        ev_f, ev2_f = ev_g, ev2_g
     out = {}
     slack = {}
     for name, var in list(mdl.cache.states_and_ext.items()) + list(mdl.cache.algebs_and_ext.items()):
         s = var.e_str
+        ev, ev2 = (ev_f, ev2_f) if var.e_code == "f" else (ev_g, ev2_g)
         try:
             v = ev.eval(s) if s is not None else 0.0
             v2 = ev2.eval(s) if s is not None else 0.0
@@ -328,6 +336,11 @@ def run_live(spec, res):
             ss.s_update_var(models)
             ss.l_update_var(models, niter=0, err=1.0)
             ss.f_update(models)
+            # what the differential equations have just been evaluated on (limiters may move pegged states next)
+            inputs_at_f = {}
+            for mname, mdl in models.items():
+                if mdl.n and mdl.in_use:
+                    inputs_at_f[mname] = {k: (np.array(v, copy=True) if isinstance(v, np.ndarray) else v) for k, v in mdl.get_inputs().items()}
             ss.l_update_eq(models, niter=0)
             ss.g_update(models)
             expected_f = np.zeros(dae.n)
@@ -361,7 +374,7 @@ def run_live(spec, res):
                                         "(array not rebound after re-addressing)" % (spec["case"], phase, mname, np.array2string(np.asarray(inp_now[vn])[:3], precision=6),
                                                                                       vn, np.array2string(np.asarray(var.v)[:3], precision=6)), model=mname, var=vn)
                             break
-                o = oracle_e(res, ss, mdl, models)
+                o = oracle_e(res, ss, mdl, models, inp_f=inputs_at_f.get(mname))
                 if o is None:
                     usable = False
                     continue
